@@ -4,8 +4,26 @@
 
 package server
 
+// Lock discipline (C13): the HTTP handlers see job objects only inside the callbacks of ReadJob/IterateJobs,
+// which run with the runner's read lock held; every function of this package is swept.
+//@ lockdomain prunner.PipelineJob
+//@ lockdefault none
+//@ func (*server).sendError
+//@   lockmode none
+//@ func (*server).listPipelines
+//@   lockmode none
+//@ func (*server).listPipelineJobs
+//@   lockmode none
+//@ func (*server).jobLogs$1
+//@   lockmode R
+//@ func (*server).jobDetail$1
+//@   lockmode R
+//@ func (*server).listPipelineJobs$1
+//@   lockmode R
+
 //@ func jobToResult
-//@   requires [nonnil] j != nil
+//@   lockmode R
+//@   assumes [nonnil] j != nil
 //@   ensures  [C08.errored] res.Errored <==> exists i :: 0 <= i && i < len(j.Tasks) && j.Tasks[i].Errored
 //@   ensures  [C15.fields] res.Pipeline == j.Pipeline && res.Completed == j.Completed && res.Canceled == j.Canceled && res.Created == j.Created && res.Start == j.Start && res.End == j.End && res.Variables == j.Variables && res.User == j.User && len(res.Tasks) == len(j.Tasks)
 //@   ensures  [C15.taskFields] forall i :: 0 <= i && i < len(j.Tasks) ==> res.Tasks[i].Name == j.Tasks[i].Name && res.Tasks[i].Status == j.Tasks[i].Status && res.Tasks[i].Start == j.Tasks[i].Start && res.Tasks[i].End == j.Tasks[i].End && res.Tasks[i].Skipped == j.Tasks[i].Skipped && res.Tasks[i].ExitCode == j.Tasks[i].ExitCode && res.Tasks[i].Errored == j.Tasks[i].Errored
@@ -15,3 +33,4 @@ package server
 
 //@ property C08: server.jobToResult/ensures[C08.*] server.jobToResult/loop*
 //@ property C15: server.jobToResult/ensures[C15.*] server.jobToResult/loop*
+//@ property C13: server.*/lock[read] server.*/lock[write] server.*/call-pre[*.lockmode]*
